@@ -125,7 +125,7 @@ type target struct {
 func (V *Verifier) targets(prop string) []target {
 	var out []target
 	for _, c := range V.cf.Contracts {
-		if !hasProp(c.Props, prop) {
+		if !hasProp(c.Props, prop) && !(V.opts.Tier == "thorough" && hasProp(c.Props, prop+"+")) {
 			continue
 		}
 		if c.Trusted {
@@ -238,6 +238,8 @@ func cmdCheck(args []string) int {
 	keep := fs.Bool("keep", false, "keep all smt2 files")
 	timeout := fs.Int("timeout", 0, "seconds per obligation")
 	noEvidence := fs.Bool("no-evidence", false, "do not write evidence")
+	selRe := fs.String("select", "", "property-level obligation selection (regexp on obligation names); unlike --obl this is a complete run")
+	writeExpected := fs.Bool("write-expected", false, "write expected/<prop>.obligations from this run (maintenance only)")
 	verifDir := fs.String("verif", "/verif", "verif directory")
 	fs.Parse(args)
 	start := time.Now()
@@ -287,13 +289,38 @@ func cmdCheck(args []string) int {
 		results = append(results, r)
 	}
 	for _, lm := range V.cf.Lemmas {
-		if !hasProp(lm.Props, *prop) {
+		if !hasProp(lm.Props, *prop) && !(*tier == "thorough" && hasProp(lm.Props, *prop+"+")) {
 			continue
 		}
 		if fre2 != nil && !fre2.MatchString("lemma."+lm.Name) {
 			continue
 		}
 		results = append(results, V.VerifyLemma(lm))
+	}
+	if *selRe == "" {
+		// per-property selection from /verif/claims.json ("select")
+		if data, err := os.ReadFile(filepath.Join(*verifDir, "claims.json")); err == nil {
+			var cl map[string]map[string]interface{}
+			if json.Unmarshal(data, &cl) == nil {
+				if c, ok := cl[*prop]; ok {
+					if sx, ok := c["select"].(string); ok {
+						*selRe = sx
+					}
+				}
+			}
+		}
+	}
+	if *selRe != "" {
+		sre := regexp.MustCompile(*selRe)
+		for _, r := range results {
+			var keep []*Obligation
+			for _, o := range r.Obls {
+				if sre.MatchString(o.Name) {
+					keep = append(keep, o)
+				}
+			}
+			r.Obls = keep
+		}
 	}
 	var all []*Obligation
 	for _, r := range results {
@@ -307,6 +334,19 @@ func cmdCheck(args []string) int {
 	}
 	genT := time.Since(start).Seconds() - loadT
 	V.SolveAll(all)
+	if *writeExpected {
+		var names []string
+		for _, r := range results {
+			for _, o := range r.Obls {
+				if o.Status == "proved" && !strings.HasPrefix(o.Kind, "safe") && !o.Cover {
+					names = append(names, o.Name)
+				}
+			}
+		}
+		sort.Strings(names)
+		os.MkdirAll(filepath.Join(*verifDir, "expected"), 0755)
+		os.WriteFile(filepath.Join(*verifDir, "expected", *prop+"."+*tier+".obligations"), []byte(strings.Join(names, "\n")+"\n"), 0644)
+	}
 	rep := &Report{V: V, Prop: *prop, Tier: *tier, Seed: seed, Results: results, Start: start, LoadT: loadT, GenT: genT, VerifDir: *verifDir, Partial: fre2 != nil || ore2 != nil, NoEvidence: *noEvidence}
 	return rep.Finish()
 }
